@@ -94,6 +94,9 @@ class StepExec:
         self.externals: Dict[str, Callable] = {}
         self.loop_invs: Dict[str, Callable] = {}
         self.ret_stack: List[List[State]] = []
+        self.depth = 0
+        self.probe = 0               # inside the first (delta-finding) pass over a loop body: nothing is recorded
+        self.find_callee: Callable[[str], Optional[ast.FunctionDef]] = lambda name: None
         self.scoped: List[Any] = []
 
     # ------------------------------------------------------------------ symbols
@@ -421,7 +424,11 @@ class StepExec:
             for cname, cond, path in self.carried(v, st):
                 c = self.ctxs[cname]
                 if contract is None:
-                    c.tainted = f"passed to {callee}() at line {line}, which has no step contract"
+                    done = self.infer_summary(call, callee, key, v, cname, cond, path, st, line) if isinstance(f, ast.Name) else None
+                    if done is None:
+                        c.tainted = c.tainted or f"passed to {callee}() at line {line}, which has no step contract"
+                    else:
+                        st = done
                     continue
                 if path and (key, path[-1]) in contract.none_fields:
                     self.oblige("call-pre", st, z3.Not(cond) if cond is not None else z3.BoolVal(False), line,
@@ -444,6 +451,69 @@ class StepExec:
                 st = self.advance(st, cname, delta * per_call, line, cond)
                 self.note(f"line {line}: {callee}() used through its step contract `{contract.text}`")
         return st
+
+    def infer_summary(self, call: ast.Call, callee: str, key, v, cname: str, cond, path, st: State, line: int) -> Optional[State]:
+        """no declared step contract: derive one from the callee's body (same module) -- the steps it takes on the object as an
+        upper bound over its exits, in terms of its own parameters -- and use it like a declared one.  The callee's body is
+        executed silently (its own Progress blocks, if any, are obligations of its own target)."""
+        if path or self.depth >= 3:
+            return None
+        try:
+            fn = self.find_callee(callee)
+        except LookupError:
+            return None
+        if fn is None:
+            return None
+        a = fn.args
+        params = [x.arg for x in a.posonlyargs + a.args]
+        bound_args = self.bind(call, params, st)
+        prog_param = next((p for p, x in bound_args.items() if x is v), None)
+        if not isinstance(prog_param, str):
+            return None
+        sub = StepExec(self.sess, self.module, fn, self.contracts)
+        sub.fresh, sub.requires, sub.externals, sub.loop_invs, sub.find_callee = self.fresh, self.requires, self.externals, {}, self.find_callee
+        sub.depth = self.depth + 1
+        sub.silent = 1
+        try:
+            sub.run_function({prog_param: None})
+        except Unsupported:
+            return None
+        sc = sub.ctxs[prog_param]
+        if sc.tainted:
+            self.ctxs[cname].tainted = f"inside {callee}(): {sc.tainted}"
+            return st
+        delta = None
+        for e in sub.returns:
+            if z3.is_false(z3.simplify(e.guard)):
+                continue
+            delta = e.cnt[prog_param] if delta is None else self.ub2(delta, e.cnt[prog_param])
+        if delta is None:
+            delta = z3.RealVal(0)
+        # callee parameter symbols -> caller argument values
+        mapping = []
+        defaults = {}
+        for x, d in zip(reversed(a.posonlyargs + a.args), reversed(a.defaults)):
+            defaults[x.arg] = d
+        for p_ in params + [x.arg for x in a.kwonlyargs]:
+            if p_ == prog_param:
+                continue
+            node = bound_args.get(p_, defaults.get(p_))
+            if node is None:
+                continue
+            if isinstance(node, Val):
+                numv, lenv = node.num, node.length
+            else:
+                numv, lenv = self.num(node, st), self.length(node, st)
+            if numv is not None:
+                mapping.append((z3.Real(f"{p_}@0"), numv))
+            if lenv is not None:
+                mapping.append((z3.Real(f"len:{p_}|{p_}@0"), lenv))
+        delta = z3.substitute(delta, *mapping) if mapping else delta
+        for h in sub.hyps:
+            self.hyps.append(z3.substitute(h, *mapping) if mapping else h)
+        self.atom_birth.update(sub.atom_birth)
+        self.note(f"line {line}: {callee}() has no declared step contract; inferred from its body: steps <= {z3.simplify(delta)}")
+        return self.advance(st, cname, delta, line, cond)
 
     def bind(self, call: ast.Call, params: List[str], st: State) -> Dict[Any, Any]:
         """argument name (or position) -> AST node or pre-evaluated Val (entries of a `**record`)"""
@@ -649,7 +719,7 @@ class StepExec:
                 self.ret_stack[-1].append(st)           # a return of a nested function
             else:
                 self.exits(st, ln, f"the {self.ordinal('return', ln)}")
-                if not self.silent:
+                if not self.probe:
                     self.returns.append(st)
             out = st.copy()
             out.guard = z3.BoolVal(False)
@@ -847,10 +917,12 @@ class StepExec:
 
         born = next(self.fresh)
         self.silent += 1
+        self.probe += 1
         try:
             pre, cpre, k, end, inner = iteration(None)
         finally:
             self.silent -= 1
+            self.probe -= 1
         ends = [e for e in [end] + inner["continue"] if not z3.is_false(z3.simplify(e.guard))]
         breaks = [e for e in inner["break"] if not z3.is_false(z3.simplify(e.guard))]
         internal = list(pre.values()) + list(cpre.values()) + [k]
@@ -1162,6 +1234,14 @@ def analyse(sess: Session, module: str, fn: ast.FunctionDef, contracts: Dict[str
     ex.requires = dict(requires or {})
     ex.externals = dict(externals or {})
     ex.loop_invs = dict(loop_invs or {})
+
+    def find_callee(name: str):
+        from .core import module_ast
+        for n in module_ast(module).body:
+            if isinstance(n, ast.FunctionDef) and n.name == name:
+                return n
+        return None
+    ex.find_callee = find_callee
     try:
         mine = ex.requires.get(fn.name)
         if mine is not None:
